@@ -201,6 +201,11 @@ def main(chk):
     for case in cases:
       r = replay(case, mode)
       total += 1
+      if total % 400 == 0:      # thousands of distinct compiled loops: drop the executables (the thorough tier otherwise exhausts memory)
+        import jax
+        import gc
+        jax.clear_caches()
+        gc.collect()
       chk.count((mode, str(case['cfg'])))
       if r:
         chk.violation(r[0], r[1], case)
